@@ -448,6 +448,17 @@ example : Cmp.relativeEq (XQ.fin 1000 : XQ .f64) (XQ.fin 1001) (XQ.fin (1/100)) 
   rw [C20_relativeEq_fin, C20_absDiffEq_fin]
   norm_num [abs_of_neg, abs_of_pos]
 
+/-- `ulps_eq` by step count (binary32, eps = 0): base rates `1/2` and `1/2 + 3·2⁻²⁴` are 3 representable steps
+    apart — equal with `max_ulps = 4`, unequal with `max_ulps = 2`; the other components coincide.
+    (`decide +kernel`: plain kernel evaluation of the model, no extra axiom.) -/
+example : Cmp.bopCmp 3 (XQ.fin 0) (XQ.fin 0) 4
+    (liftB (f := .f32) (1/4) (1/4) (1/2) (1/2)) (liftB (1/4) (1/4) (1/2) (8388611/16777216)) = true := by
+  decide +kernel
+
+example : Cmp.bopCmp 3 (XQ.fin 0) (XQ.fin 0) 2
+    (liftB (f := .f32) (1/4) (1/4) (1/2) (1/2)) (liftB (1/4) (1/4) (1/2) (8388611/16777216)) = false := by
+  decide +kernel
+
 /-- reflexivity and symmetry instances -/
 example : Cmp.bopCmp 3 (XQ.fin 0) (XQ.fin 0) 0
     (liftB (f := .f32) (1/2) (1/4) (1/4) (1/2)) (liftB (1/2) (1/4) (1/4) (1/2)) = true :=
